@@ -85,6 +85,15 @@ func (p *Program) verifyFunction(fn *ssa.Function, fc *FuncContract) (res *FuncR
 	}
 	env := x.envFor(st, fr)
 	env.old = nil
+	// trusted axioms from the spec files
+	for _, ax := range p.contracts.Axioms {
+		g, err := env.EvalBool(ax.Expr)
+		if err != nil {
+			x.errorf("%s:%d: axiom %s: %v", ax.File, ax.Line, ax.Name, err)
+			continue
+		}
+		st.Assume(g)
+	}
 	goTypeResolver = func(name string) types.Type { return p.resolveGoType(env.pkg, name) }
 	if fc != nil {
 		for _, g := range fc.Ghosts {
